@@ -14,7 +14,8 @@ for k in sorted(R):
     r = R[k]
     rows.append(f"| {k} | {summ} | {'**' + r['check'] + '**' if r['caught_by_quick'] else 'not caught'} | {r.get('note','')} |")
 caught = sum(1 for v in R.values() if v["caught_by_quick"])
-table = (f"60 changes were written by 20 fresh sub-agents (three per property; each saw only the property text and a scratch\n"
+table = (f"{len(R)} changes were written by fresh sub-agents (first wave: 20 agents, three changes per property; second wave, ids `-m4`: one\n"
+         f"more for C03, C09, C12, C14, C15, C18, each agent told which sites the first wave had used; each saw only the property text and a scratch\n"
          f"worktree, never /verif). Each was confirmed in a scratch worktree (`verify_seed.sh`: the touched packages' existing\n"
          f"suites pass with the patch, the agent's demo fails with it and passes without) and is kept under `seeded/<id>/`.\n"
          f"Checks were run against each change in a sandbox copy of /repo and /verif (`/tmp/mv`), never in /repo itself.\n"
